@@ -53,6 +53,15 @@ func (ce *ChanEngine) selectGuard(op *ChanOp) (bool, string) {
 	return false, ""
 }
 
+func hasDoneSibling(ce *ChanEngine, op *ChanOp) bool {
+	for _, cl := range op.Select.Clauses {
+		if cl.Op != nil && cl.Op != op && cl.Op.Kind == OpRecv && ce.isDoneSource(op.Select.Func, cl.Op.Chan) {
+			return true
+		}
+	}
+	return false
+}
+
 func exprStringShort(e ast.Expr) string {
 	s := exprString(e)
 	if len(s) > 40 {
@@ -448,6 +457,20 @@ func ruleR0(c *Ctx, surfaceOnly bool) {
 			what = "functions on the delivery/answer/token-entry surface must not contain an unguarded blocking operation (they run outside any select that could observe cancellation)"
 		}
 		if ok, how := ce.selectGuard(op); ok {
+			// a send whose only escape is `default` is a drop: harmless only when the channel has room
+			if op.Kind == OpSend && how == "select with default" && !hasDoneSibling(ce, op) {
+				caps := ce.CapsOf(op)
+				room := len(caps) > 0
+				for _, cp := range caps {
+					if cp != ">=1" {
+						room = false
+					}
+				}
+				if !room {
+					c.Bad(f, op.Node, desc, what, fmt.Sprintf("K1d non-blocking send (select/default) on a channel without known capacity >= 1 (make sites: %v): the value is dropped unless the receiver is parked at that very instant", caps))
+					continue
+				}
+			}
 			c.Ok(f, op.Node, desc, what, "K1 "+how, false)
 			continue
 		}
